@@ -396,7 +396,10 @@ func c6FuncChild(ctx *core.Ctx, req c6ChildReq) {
 
 func c06Order(ctx *core.Ctx) {
 	templates := []string{"SELECT `%[1]s` + `%[2]s` AS r, id FROM stream", "SELECT expr('%[1]s + %[2]s') AS r, id FROM stream",
-		"SELECT `%[1]s` - `%[2]s` AS r, id FROM stream", "SELECT `%[1]s` * 2 + `%[2]s` AS r, id FROM stream"}
+		"SELECT `%[1]s` - `%[2]s` AS r, id FROM stream", "SELECT `%[1]s` * 2 + `%[2]s` AS r, id FROM stream",
+		// comparisons, whose compiled form may be specialised to the operand types of the first row
+		"SELECT %[1]s <> '1' AS r, id FROM stream", "SELECT `%[1]s` != `%[2]s` AS r, id FROM stream",
+		"SELECT expr('%[1]s == %[2]s') AS r, id FROM stream", "SELECT %[1]s <> %[2]s AS r, id FROM stream"}
 	kinds := []string{"text", "int", "float", "null", "mixed"}
 	mk := func(kind, a, b string, id int) Row {
 		switch kind {
